@@ -369,6 +369,31 @@ theorem sim_genParams (c : Ctx W HS) : (ps : List Param) → (∀ p ∈ ps, isUs
     exact relX_seqX c (sim_genParam c p (h p (by simp)).1 (h p (by simp)).2)
       (sim_genParams c ps fun q hq => h q (by simp [hq]))
 
+/-! ## closure variables -/
+
+theorem freeHook_envR (c : Ctx W HS) (x : String) :
+    freeHook c.envR x = (lookup c.envR x >>= fun v =>
+      maybeInteract c.envR c.cfg x .noneV none v false false false >>= fun _ => pure ()) := by
+  unfold freeHook maybeInteract
+  simp only [Ctx.envR, annValOpt, annTags, Bool.false_or]
+  congr 1
+  funext v
+  split <;> simp
+
+theorem sim_fetchFree (c : Ctx W HS) (x : String) (hx : isUser x = true) :
+    RelX c (execB c.envI c.fuel [fetchFree c.cfg x]) (stepM (freeHook c.envR x) fun _ => done .normal) := by
+  simp only [fetchFree, execB_single, execS, eval_interactE, evalE, freeHook_envR, stepM_bind, stepM_pure]
+  refine relX_stepM c (relM_lookup c x hx) fun v => ?_
+  exact relX_stepM c (relM_maybe c x .noneV none v false false false) fun r => relX_done c _
+
+theorem sim_fetchFrees (c : Ctx W HS) : (xs : List String) → (∀ x ∈ xs, isUser x = true) →
+    RelX c (execB c.envI c.fuel (xs.map (fetchFree c.cfg))) (stepM (freeHooks c.envR xs) fun _ => done .normal)
+  | [], _ => by simp [execB_nil, freeHooks, stepM_pure]; exact relX_done c _
+  | x :: xs, h => by
+    simp only [List.map_cons, execB_cons, freeHooks, stepM_bind]
+    rw [stepM_as_seq (freeHook c.envR x), ← execB_single]
+    exact relX_seqX c (sim_fetchFree c x (h x (by simp))) (sim_fetchFrees c xs fun y hy => h y (by simp [hy]))
+
 /-! ## `#enter`, `#exit`, `#error`: only the observable state matters -/
 
 /-- a relation that a change of the handler state (the same on both sides) does not disturb -/
@@ -452,26 +477,32 @@ theorem error_handler (c : Ctx W HS) (lib : LibSpec c) (e : Val) (hi : shouldIns
 /-! ## the whole function -/
 
 theorem inner_core (c : Ctx W HS) (lib : LibSpec c) (ext : List String) (ok : ExtOK c ext)
+    (frees : List String) (hfr : ∀ x ∈ frees, isUser x = true)
     (params : List Param) (hp : ∀ p ∈ params, isUser p.name = true ∧ c.scoped p.name)
     (body1 : List Stmt) (hcore : coreB body1 = true) (hsc : ∀ x ∈ Stmt.assignedL body1, c.scoped x) :
     H3 (Rel0 c ext fun _ => False) (Rel c)
       (execB c.envI c.fuel
         (((["#enter"].filter fun x => shouldInstr c.cfg x (annTags (some enterAnn))).flatMap fun sym =>
             standalone c.cfg sym (some enterAnn) (.bool true))
-          ++ ((ext.map (fetchExternal c.cfg) ++ params.flatMap (genParam c.cfg)) ++ (instrB c.cfg body1 1).1)))
-      (seqX (stepM (do hookMetas c.envR (some enterAnn) ["#enter"]; fetchRefs c.envR ext; paramHooks c.envR params)
+          ++ ((ext.map (fetchExternal c.cfg) ++ frees.map (fetchFree c.cfg) ++ params.flatMap (genParam c.cfg))
+            ++ (instrB c.cfg body1 1).1)))
+      (seqX (stepM (do hookMetas c.envR (some enterAnn) ["#enter"]; fetchRefs c.envR ext; freeHooks c.envR frees
+                       paramHooks c.envR params)
           fun _ => done .normal)
         (execB c.envR c.fuel body1)) := by
   simp only [execB_append, hookMetas, stepM_bind, stepM_pure]
   rw [stepM_as_seq (hookMeta c.envR "#enter" (some enterAnn) (.bool true)),
-    stepM_as_seq (fetchRefs c.envR ext), seqX_assoc, seqX_assoc, seqX_assoc]
+    stepM_as_seq (fetchRefs c.envR ext), stepM_as_seq (freeHooks c.envR frees),
+    seqX_assoc, seqX_assoc, seqX_assoc, seqX_assoc, seqX_assoc]
   refine H3.seq (meta_event c _ (hsStable_rel0 c ext _) "#enter" (some enterAnn) (.bool true) (.bool true)
     (by simp [evalE])) ?_
   refine H3.seq (fetch_all c lib ext ok ext (fun x hx => hx) _) ?_
   have hrel : ∀ s' s, Rel0 c ext (fun y => False ∨ y ∈ ext) s' s → Rel c s' s :=
     fun s' s h => h.toRel ok fun x hx => Or.inr hx
   intro st' st h
-  exact H3.seq (H3.of_relX (sim_genParams c params hp)) (H3.of_relX (simB c lib (fun k => ok.nopin _) body1 hcore hsc 1)) st' st (hrel _ _ h)
+  exact H3.seq (H3.of_relX (sim_fetchFrees c frees hfr))
+    (H3.seq (H3.of_relX (sim_genParams c params hp))
+      (H3.of_relX (simB c lib (fun k => ok.nopin _) body1 hcore hsc 1))) st' st (hrel _ _ h)
 
 theorem exit_event (c : Ctx W HS) :
     H3 Obs Obs (execB c.envI c.fuel
@@ -523,7 +554,7 @@ theorem delimit_fun (c : Ctx W HS) (lib : LibSpec c) (inner' : List Stmt) (core 
 def coreF (f : FunDef) : Bool :=
   coreB (bodyWithReturn f)
   && (collect f).assigned.all isUser && (collect f).external.all isUser
-  && f.freevars.isEmpty
+  && f.freevars.all isUser
   && (Stmt.assignedL (bodyWithReturn f)).all (fun x => (collect f).assigned.contains x)
   && f.params.all (fun p => (collect f).assigned.contains p.name)
 
@@ -592,7 +623,7 @@ theorem instrument_refines (host : Host W HS) (cfg : Cfg) (f : FunDef) (fuel : N
     ∧ Obs (runInstr (ctxOf host cfg f fuel).envI fuel (instrument cfg f) st0).2
         (runRef (ctxOf host cfg f fuel).envR fuel f st0).2 := by
   let c := ctxOf host cfg f fuel
-  simp only [coreF, Bool.and_eq_true, List.all_eq_true, List.isEmpty_iff] at hf
+  simp only [coreF, Bool.and_eq_true, List.all_eq_true] at hf
   obtain ⟨⟨⟨⟨⟨hbody, hau⟩, heu⟩, hfree⟩, hasg⟩, hpar⟩ := hf
   have hext : ∀ x, x ∈ (collect f).external → (collect f).assigned.contains x = false := by
     intro x hx
@@ -628,26 +659,29 @@ theorem instrument_refines (host : Host W HS) (cfg : Cfg) (f : FunDef) (fuel : N
   have hp : ∀ p ∈ f.params, isUser p.name = true ∧ c.scoped p.name := fun p hpm =>
     ⟨hau p.name (List.contains_iff_mem.1 (hpar p hpm)), hscoped _ (hpar p hpm)⟩
   have hsc : ∀ x ∈ Stmt.assignedL (bodyWithReturn f), c.scoped x := fun x hx => hscoped x (hasg x hx)
-  have key := inner_core c lib _ ok f.params hp (bodyWithReturn f) hbody hsc
+  have hfr : ∀ x ∈ sortNames (collect f).free, isUser x = true := by
+    intro x hx
+    exact hfree x (by simpa [collect] using (mem_sortNames x _).1 hx)
+  have key := inner_core c lib _ ok _ hfr f.params hp (bodyWithReturn f) hbody hsc
   -- unfold both sides
-  have hfree' : (collect f).free = [] := by simpa [collect] using hfree
   have eI : runInstr c.envI fuel (instrument cfg f) = execB c.envI c.fuel
       (delimit c.cfg ((((sortNames (collect f).external).map (fetchExternal c.cfg)
+          ++ (sortNames (collect f).free).map (fetchFree c.cfg)
           ++ f.params.flatMap (genParam c.cfg)) ++ (instrB c.cfg (bodyWithReturn f) 1).1))
         ["#enter"] ["#error"] ["#exit"] (some enterAnn) (some exitAnn)) := by
     unfold runInstr instrument bodyWithReturn
     simp only [c, ctxOf]
-    rcases hoistB f.body with ⟨body0, decls⟩
-    simp only [hfree', sortNames, List.foldr_nil, List.map_nil, List.append_nil]
   have eR : runRef c.envR fuel f =
       (if (!shouldInstr c.cfg "#error" [] && !shouldInstr c.cfg "#exit" ["exit"]) = true then
         seqX (stepM (do hookMetas c.envR (some enterAnn) ["#enter"]
                         fetchRefs c.envR (sortNames (collect f).external)
+                        freeHooks c.envR (sortNames (collect f).free)
                         paramHooks c.envR f.params) fun _ => done .normal)
           (execB c.envR c.fuel (bodyWithReturn f))
        else tryFinally (tryExcept
           (seqX (stepM (do hookMetas c.envR (some enterAnn) ["#enter"]
                            fetchRefs c.envR (sortNames (collect f).external)
+                           freeHooks c.envR (sortNames (collect f).free)
                            paramHooks c.envR f.params) fun _ => done .normal)
             (execB c.envR c.fuel (bodyWithReturn f)))
           (errorHook c.envR) (done .normal))
